@@ -430,6 +430,46 @@ def gen(rng: random.Random, h5rec: Dict[str, Any], stage: int, job: Dict[str, An
     return a
 
 
+def directed_prologue(job: Dict[str, Any], km, stage: int) -> List[Dict[str, Any]]:
+    """Short scripted openings that set up situations random walks reach only by luck (each distilled from a seeded change
+    that was once caught by chance): they are executed and judged like every other operation, the walk continues after them."""
+    kind = job.get("directed")
+    if not kind:
+        return []
+    blank = {"op": "", "p": [], "q": [], "key": "", "v": "", "without_meta": False, "schema": "", "sver": [], "valid": True,
+             "by": "", "cls": "", "as": "", "method": "", "rpath": "", "via": 0, "tok": "", "ro": False, "directed": True}
+
+    def mk(op, **kw):
+        return dict(blank, op=op, **kw)
+
+    def ds(p, v="v1"):
+        return mk("set_dataset", p=p, v=v, how="setitem")
+
+    def attach(p, cls, by="class", as_="object"):
+        c = CL.CLASSES[cls]
+        return mk("attach", p=p, cls=cls, schema=c.Plugin.name, by=by, sver=list(c.Plugin.version) if by == "class" else [], **{"as": as_})
+    child = "BB10" if stage >= 1 else "DD01"       # a schema with an ancestor schema, where installed
+    if kind == "prefix_siblings":
+        # two sibling groups, one name a proper prefix of the other, both with annotated nodes below; the shorter one goes
+        pairs = [(k1, k2) for k1, v1 in km.k.items() for k2, v2 in km.k.items() if k1 != k2 and v2.startswith(v1)]
+        k1, k2 = pairs[0] if pairs else ("a", "b")
+        return [mk("create_group", p=[k1]), mk("create_group", p=[k2]), ds([k2, "a"]), attach([k2, "a"], "DD01"), attach([k2], child),
+                ds([k1, "a"]), attach([k1, "a"], "DD01"), mk("delete", p=[k1])]
+    if kind == "two_schemas_one_package":
+        # first schema of a package, then a second one of the same package, then the first one's last object goes
+        return [ds(["a"]), attach(["a"], "DD01"), attach(["a"], "AA10", as_="dict"), mk("detach", p=["a"], schema="vf.dd"),
+                ds(["b"]), attach(["b"], "AUX01"), mk("detach", p=["a"], schema="vf.aa")]
+    if kind == "copy_without_meta_below":
+        # the only object of a schema with an ancestor sits below a group; the group is copied without metadata
+        return [mk("create_group", p=["b"]), ds(["b", "c"]), attach(["b", "c"], child), mk("copy", p=["b"], q=["a"], without_meta=True),
+                mk("copy", p=["b"], q=["c"]), mk("delete", p=["a"])]
+    if kind == "move_group_then_recreate":
+        # an annotated dataset inside a group; the group moves away; a fresh node appears at the old path in the same session
+        return [mk("create_group", p=["c"]), ds(["c", "a"]), attach(["c", "a"], "DD01"), attach(["c"], child), mk("move", p=["c"], q=["b"]),
+                ds(["c", "a"], "v2"), mk("create_group", p=["c", "b"]), mk("move", p=["b"], q=["c", "c"])]
+    return []
+
+
 def run_history(job: Dict[str, Any], emit, scratch: Path, tk: h5lib.Tokens, env: CL.Env):
     tid = job["tid"]
     rng = random.Random(job["seed"])
@@ -453,6 +493,7 @@ def run_history(job: Dict[str, Any], emit, scratch: Path, tk: h5lib.Tokens, env:
         step = 0
         ghosts_seen: List[List[str]] = []
         present_before: List[List[str]] = []
+        queue = directed_prologue(job, km, env.stage)
         n = job.get("nops", 14)
         prev = None
         while step < n:
@@ -494,9 +535,9 @@ def run_history(job: Dict[str, Any], emit, scratch: Path, tk: h5lib.Tokens, env:
             now = [n_["p"] for n_ in prev["tree"]]
             job["_fresh_ghosts"] = [g_ for g_ in present_before if g_ not in now]
             present_before = [g_ for g_ in ghosts_seen if g_ in now]
-            a = gen(rng, prev, env.stage, job)
+            a = queue.pop(0) if queue else gen(rng, prev, env.stage, job)
             ro_failed = None
-            if a["op"] != "pack" and rng.random() < job.get("p_ro", 0.07):
+            if a["op"] != "pack" and not a.get("directed") and rng.random() < job.get("p_ro", 0.07):
                 # this operation meets containers over drivers opened read-only: it must be refused without effect
                 # (only looking up an existing group with require_group succeeds); afterwards writable again
                 a["ro"] = True
